@@ -12,6 +12,8 @@ ID = "C07"
 TITLE = "Clip masks select exactly the intersecting cells plus the requested buffer"
 MC = {"quick": [("MC_C07_defs", "MC_C07.cfg", 8)], "thorough": [("MC_C07_defs", "MC_C07_thorough.cfg", 16)]}
 TRACE = ("Trace_C07", "Trace_C07.cfg")
+# the repository\'s own tests, recorded by harness/harvest_plugin.py, judged by the same trace specification
+ALSO = {"quick": [], "thorough": ["harness.props.hv07"]}
 REQUIRED = ["Blur", "Smear", "CMask", "ClipMask", "BufferFaces", "MaskFromFaces", "buffer-0", "buffer-1", "buffer-2",
             "buffer-3", "no-hit", "monotone-pair", "mesh-beyond-one-leaf", "mesh-with-edges",
             "geom-inside-cell", "geom-cell-ring", "geom-vertex-point", "geom-line", "geom-edge-line", "geom-multi",
